@@ -190,10 +190,12 @@ func TestC16(t *testing.T) {
 			var k int64
 			for _, v := range []string{"", "abc", "12", "০৫", " ", "k", "1.5", "nan", "সম\u09df", "ক\u09c7\u09be", "cafe\u0301", "\u09dc",
 				// strings that begin with or consist of characters a reader might be tempted to strip
-				"\ufeffabc", "\ufeff", "\u200b", "x\u00a0y", "\ufeff21"} {
+				"\ufeffabc", "\ufeff", "\u200b", "x\u00a0y", "\ufeff21",
+				// joiners inside a word, and strings as long as the buffers a reader might use (4096, 65536 bytes)
+				"\u09b0\u200d\u09cd\u09af\u09be\u09ac", "\u09b9\u0995\u09cd\u200c", strings.Repeat("\u09ac\u09be\u0982\u09b2\u09be ", 260) + "end", strings.Repeat("ab", 2047) + "xyz", strings.Repeat("long line ", 6600)} {
 				c.c16Group(s, "strings", fmt.Sprintf("%q", v), c16StringProducers(v), contexts, &k)
 			}
-			c.Ev.MarkExhaustive(fmt.Sprintf("%d contexts x 17 string values (incl. strings that are not NFC-stable and strings beginning with a byte-order mark or a zero-width space) x every producer against the literal producer (8-10 producers each)", len(contexts)))
+			c.Ev.MarkExhaustive(fmt.Sprintf("%d contexts x 22 string values (incl. strings that are not NFC-stable, strings beginning with a byte-order mark or a zero-width space, joiners inside words, strings of 4 KiB and 64 KiB) x every producer against the literal producer (8-10 producers each)", len(contexts)))
 		})
 		// integers beyond 2^53 that only the bitwise operators can produce exactly: the same value reached
 		// through every storage / call path must keep behaving as the directly computed one
